@@ -38,7 +38,7 @@ ASSUMPTIONS = [
 TIMEOUT = {"quick": 40, "thorough": 120}
 DEADLINE = {"quick": 100, "thorough": 1000}
 MIN_DECIDING = {"quick": 40, "thorough": 300}
-NCASES = {"quick": 160, "thorough": 2500}
+NCASES = {"quick": 400, "thorough": 2500}
 
 SAMPLER_PARAMS = {
     "Bernoulli": [["1/2"], ["1/10"], ["0.9"], ["1"], ["0"]],
